@@ -4,7 +4,7 @@ from ..gen import G
 from ..common import run_apps, app, out_of, sig, base_files
 from ..core import unhx, hx
 
-THEOREMS = []
+THEOREMS = ['lost_output_fails', 'sink_holds_prefix', 'complete_output_unchanged', 'direct_writes_fail']
 LEVEL = 'proof'
 RULE = ('every report command with the output sink failing from byte offset k, for every k in 0..len (small reports) or sampled k incl. the '
         '4096-byte buffer boundary (large reports); the real binary with stdout on /dev/full and on a closed pipe; bufio.Writer model vs bufio; '
